@@ -697,6 +697,34 @@ func apply(w *walk.Worker, ctx sdk.Context, e *graph.Edge, path []*graph.Edge, g
 				f.Path = walk.PathActs(path)
 				fs = append(fs, f)
 			}
+			if name == "updatedenom" && outcome == "ok" {
+				// the denomination was changed although the specification refuses it (pools exist): can the pools still pay what
+				// the pool query promises (C06)?  Every owner withdraws on a branch of the state
+				pctx, _ := ctx.CacheContext()
+				qs := sdk.WrapSDKContext(pctx)
+				for _, n := range s.addrs {
+					o := s.addr[n]
+					qr, qerr := app.CfevestingKeeper.VestingPools(qs, &vtypes.QueryVestingPoolsRequest{Owner: o.String()})
+					if qerr != nil || qr == nil {
+						continue
+					}
+					promised := sdk.ZeroInt()
+					for _, vp := range qr.VestingPools {
+						if a, ok := sdk.NewIntFromString(vp.Withdrawable); ok {
+							promised = promised.Add(a)
+						}
+					}
+					if !promised.IsPositive() {
+						continue
+					}
+					before := app.BankKeeper.GetAllBalances(pctx, o)
+					oc, det, _, _ := s.env.Deliver(pctx, &vtypes.MsgWithdrawAllAvailable{Owner: o.String()})
+					got := app.BankKeeper.GetAllBalances(pctx, o).Sub(before...)
+					if oc != "ok" || len(got) != 1 || !got[0].Amount.Equal(promised) {
+						fail("C06", "predicate", "vesting.withdraw-after-denom-update", "after a denomination update that the specification refuses, the pools of "+n+" no longer pay what the pool query reports as withdrawable ("+det+")", promised.String(), oc+" "+got.String())
+					}
+				}
+			}
 			return ctx, fs, true
 		}
 		if outcome == "ok" && (name == "withdraw" || name == "send") {
